@@ -17,8 +17,11 @@ Definition iobs : Type := list it_row * list pt_row * list fl_row.
 (* (result class, (file key, Start, End of the op's writer after the op), observation);
    the observation is None when the call panicked (the index mutex stays locked). *)
 Definition sobs : Type := res * (N * Z * Z) * option iobs.
+(* one history step: the operation, its observation, and — for a DeleteC — the nested
+   writer operations that actually ran inside the resolvers, each with its observation *)
+Definition hstep : Type := op * sobs * list (wop * sobs).
 (* ((nominal file size, real cap), history with observations) *)
-Definition case_t : Type := (N * N) * list (op * sobs).
+Definition case_t : Type := (N * N) * list hstep.
 
 (* ---- projection of a model state to the same shape ---- *)
 Definition m_iter (st : db) : list it_row :=
@@ -29,8 +32,16 @@ Fixpoint m_files_from (fs : list file) (k : N) : list fl_row :=
   match fs with [] => [] | f :: r => (k, f_size f) :: m_files_from r (k + 1)%N end.
 Definition m_obs (st : db) : iobs := (m_iter st, m_ptrs st, m_files_from (d_files st) 1%N).
 
+Definition wop_op (x : wop) : op :=
+  match x with
+  | WOpen w s e k => Open w s e k | WWrite w d => Write w d
+  | WCommit w e k => Commit w e k | WClose w => Close w
+  end.
 Definition op_writer (o : op) : option N :=
-  match o with Open w _ _ _ | Write w _ | Commit w _ _ | Close w => Some w | Delete _ _ => None end.
+  match o with
+  | Open w _ _ _ | Write w _ | Commit w _ _ | Close w => Some w
+  | Delete _ _ | DeleteC _ _ _ _ => None
+  end.
 Definition m_winfo (st : db) (o : op) : N * Z * Z :=
   match op_writer o with
   | Some w => match d_writers st !! w with
@@ -64,12 +75,28 @@ Definition step_agrees (st' : db) (r : res) (o : op) (ob : sobs) : bool :=
   | Some io => bool_decide (m_winfo st' o = wi) && iobs_eqb (m_obs st') io
   end.
 
-Fixpoint agrees (st : db) (tr : list (op * sobs)) : bool :=
+(* the nested operations of a DeleteC: the model's states/results against what the
+   implementation reported for the operations that ran (same number, same order) *)
+Fixpoint nested_agree (ms : list (db * res)) (ns : list (wop * sobs)) : bool * bool :=
+  match ms, ns with
+  | [], [] => (true, false)
+  | (st', r) :: ms', (x, ob) :: ns' =>
+      if step_agrees st' r (wop_op x) ob then
+        match ob with
+        | (_, _, None) => (true, true)     (* a panic ends the case: nothing runs after it *)
+        | _ => nested_agree ms' ns'
+        end
+      else (false, false)
+  | _, _ => (false, false)
+  end.
+
+Fixpoint agrees (st : db) (tr : list hstep) : bool :=
   match tr with
   | [] => true
-  | (o, ob) :: rest =>
+  | (o, ob, ns) :: rest =>
       let '(st', r) := step st o in
-      step_agrees st' r o ob && agrees st' rest
+      let '(okn, stopped) := nested_agree (step_nested st o) ns in
+      okn && (if stopped then true else step_agrees st' r o ob && agrees st' rest)
   end.
 
 Definition mismatch (c : case_t) : bool :=
@@ -177,7 +204,7 @@ Definition step_ok (pre : iobs) (b : book) (o : op) (ob : sobs) : bool :=
               then is_validation r else true
           | None => true
           end
-      | Delete _ _ => true
+      | Delete _ _ | DeleteC _ _ _ _ => true
       end
   end.
 
@@ -217,22 +244,42 @@ Definition book_step (b : book) (o : op) (ob : sobs) : book :=
       | Some wb => book_set b w (mkWB (b_start wb) (b_preset wb) (b_prev wb) (b_pending wb) false (b_taint wb))
       | None => b
       end
-  | Delete a d =>
+  | Delete a d | DeleteC a d _ _ =>
       map (fun wx => let '(w, wb) := wx in
              if b_live wb && (b_start wb <? d)
              then (w, mkWB (b_start wb) (b_preset wb) (b_prev wb) (b_pending wb) (b_live wb) true)
              else (w, wb)) b
   end.
 
-Fixpoint ok_from (pre : iobs) (b : book) (tr : list (op * sobs)) : bool :=
+(* the nested writer operations of a DeleteC are judged like top-level ones ("at every
+   moment"); returns the verdict, the last observation and the book after them *)
+Fixpoint ok_nested (pre : iobs) (b : book) (ns : list (wop * sobs)) : bool * bool * iobs * book :=
+  match ns with
+  | [] => (true, false, pre, b)
+  | (x, ob) :: rest =>
+      let o := wop_op x in
+      if step_ok pre b o ob then
+        match ob with
+        | (_, _, Some post) => ok_nested post (book_step b o ob) rest
+        | (_, _, None) => (true, true, pre, b)      (* judged panic: nothing observable after it *)
+        end
+      else (false, false, pre, b)
+  end.
+
+Fixpoint ok_from (pre : iobs) (b : book) (tr : list hstep) : bool :=
   match tr with
   | [] => true
-  | (o, ob) :: rest =>
-      step_ok pre b o ob &&
-      match ob with
-      | (_, _, Some post) => ok_from post (book_step b o ob) rest
-      | (_, _, None) => true
-      end
+  | (o, ob, ns) :: rest =>
+      (* a delete first taints the writers it reaches; nested operations follow *)
+      let b0 := match o with DeleteC _ _ _ _ => book_step b o ob | _ => b end in
+      let '(okn, stopped, pre', b1) := ok_nested pre b0 ns in
+      okn &&
+      (if stopped then true
+       else step_ok pre' b1 o ob &&
+            match ob with
+            | (_, _, Some post) => ok_from post (book_step b1 o ob) rest
+            | (_, _, None) => true
+            end)
   end.
 
 (* the monitor: applied to IMPLEMENTATION observations *)
@@ -243,14 +290,17 @@ Definition violates (c : case_t) : bool := negb (ok_C03 c).
 Definition mismatches (cs : list case_t) : list nat := find_idx mismatch cs.
 Definition violations (cs : list case_t) : list nat := find_idx violates cs.
 
-(* model results / observations after each op, for replays *)
-Fixpoint model_trace (st : db) (ops : list op) : list (res * (N * Z * Z) * iobs) :=
+(* model results / observations after each op (nested ones first), for replays *)
+Definition m_row (st' : db) (r : res) (o : op) : res * (N * Z * Z) * iobs := (r, m_winfo st' o, m_obs st').
+Fixpoint model_trace (st : db) (ops : list op) : list (list (res * iobs) * (res * (N * Z * Z) * iobs)) :=
   match ops with
   | [] => []
-  | o :: rest => let '(st', r) := step st o in (r, m_winfo st' o, m_obs st') :: model_trace st' rest
+  | o :: rest =>
+      let '(st', r) := step st o in
+      (map (fun sr => (snd sr, m_obs (fst sr))) (step_nested st o), m_row st' r o) :: model_trace st' rest
   end.
-Definition model_dump (c : case_t) : list (res * (N * Z * Z) * iobs) :=
-  let '((nominal, cap), tr) := c in model_trace (init nominal cap) (map fst tr).
+Definition model_dump (c : case_t) : list (list (res * iobs) * (res * (N * Z * Z) * iobs)) :=
+  let '((nominal, cap), tr) := c in model_trace (init nominal cap) (map (fun h => fst (fst h)) tr).
 
 (* ---- function-level differential test of Common/Telem.v against x/go/telem ---- *)
 (* ((tr.Start, tr.End, rng.Start, rng.End),
